@@ -800,6 +800,12 @@ def run(ck, prog, ctx):
                                 if any(o[0] == "call" and o[1] in closure_getters for o in og) or ("field", TI, "all_parents") in og:
                                     parts.add("closures of the parents")
                     ok = parts == {"direct parents", "closures of the parents"}
+                    hand_ = sorted({a[1].rsplit("::", 1)[-1] for a in val if a[0] in ("call", "mutcall") and re.search(r"(^|::)vec::Vec|SmallVec", a[1]) and a[1].rsplit("::", 1)[-1].split("::<")[0] in ("insert", "push", "extend", "extend_from_slice", "append")})
+                    if not ok and hand_:
+                        # the set is put together in a plain vector (`ancestors.extend(closure); sort; dedup; ancestors.insert(pos, parent)`) and turned
+                        # into a group at the end: the group operators this rule reads do not take part
+                        ck.undecided("ROLE", "cache-write/%s/value" % w.short, "the cached set is assembled by hand in a vector (`%s`) and converted at the end: which ids it receives is not read by this rule (recognised so far: %s)" % ("`, `".join(hand_), ", ".join(sorted(parts)) or "nothing"), where=w.where(s.line))
+                        continue
                     ck.ob("ROLE", "cache-write/%s/value" % w.short, ok, "the cache is written as the union of {%s} (expected direct parents ∪ the parents' closures)" % ", ".join(sorted(parts)), where=w.where(s.line))
                     # same term: receiver keyed by the function's term parameter, parents read from the same parameter
                     rk = set()
